@@ -69,6 +69,16 @@ def yatiml_extra_tables():
 _yatiml_tables0 = None
 
 
+def snap_vars(cls):
+    """Identity of every class attribute, and the content of plain containers
+    (a dict such as _yatiml_defaults can be changed without being replaced)."""
+    out = {}
+    for k, v in vars(cls).items():
+        plain = isinstance(v, (dict, list, set, tuple, str, int, float, bool, type(None)))
+        out[k] = (id(v), repr(v) if plain else None)
+    return out
+
+
 class World:
     """Executes history steps; reports violations through ctx.finding."""
 
@@ -91,7 +101,7 @@ class World:
             m = models.Model(dict(W.MODELS[mi], doc_type='any'))
             self.models[mi] = m
             for n, c in m.classes.items():
-                self.class_vars[(mi, n)] = (c, {k: id(v) for k, v in vars(c).items()})
+                self.class_vars[(mi, n)] = (c, snap_vars(c))
         return self.models[mi]
 
     def describe(self):
@@ -195,7 +205,7 @@ class World:
                              % self.describe())
             return
         for (mi, n), (c, v0) in self.class_vars.items():
-            v1 = {k: id(v) for k, v in vars(c).items()}
+            v1 = snap_vars(c)
             if v1 != v0:
                 self.ctx.finding('user_classes', 'class_modified',
                                  'vars(%s) of model %d changed: %s\n  %s'
